@@ -106,6 +106,11 @@ func c02Key(min c02Case, oi, ov c02Outcome, vmSet, interpSet map[string]bool) st
 	if mk := c02MatchClass(body); mk != "" && cv != "hang" {
 		return "match/" + mk + "/" + pair
 	}
+	// VM locals are one flat name-keyed store: a for loop's variables overwrite an
+	// enclosing loop's or an earlier declaration's variable of the same name
+	if c02ForClobbers(body, map[string]bool{}) && ci != "panic" && cv != "hang" {
+		return "for-loop-variable-overwrites-same-name-variable-in-vm"
+	}
 	// `$ obj.field = v` compiles to a store into a variable named "obj.field"
 	for _, t := range c02AssignTargets(body) {
 		if strings.Contains(t, ".") {
@@ -248,4 +253,52 @@ func c02AssignTargets(b []ast.Statement) []string {
 	}
 	walk(b)
 	return out
+}
+
+// c02ForClobbers: does a for statement bind a name that is already bound by an
+// enclosing for statement or declared earlier with `$`?
+func c02ForClobbers(b []ast.Statement, bound map[string]bool) bool {
+	local := map[string]bool{}
+	for k := range bound {
+		local[k] = true
+	}
+	for _, s := range b {
+		switch x := s.(type) {
+		case ast.AssignStatement:
+			local[x.Target] = true
+		case ast.ForStatement:
+			if (x.KeyVar != "" && local[x.KeyVar]) || local[x.ValueVar] {
+				return true
+			}
+			inner := map[string]bool{}
+			for k := range local {
+				inner[k] = true
+			}
+			inner[x.ValueVar] = true
+			if x.KeyVar != "" {
+				inner[x.KeyVar] = true
+			}
+			if c02ForClobbers(x.Body, inner) {
+				return true
+			}
+		case ast.IfStatement:
+			if c02ForClobbers(x.ThenBlock, local) || c02ForClobbers(x.ElseBlock, local) {
+				return true
+			}
+		case ast.WhileStatement:
+			if c02ForClobbers(x.Body, local) {
+				return true
+			}
+		case ast.SwitchStatement:
+			for _, c := range x.Cases {
+				if c02ForClobbers(c.Body, local) {
+					return true
+				}
+			}
+			if c02ForClobbers(x.Default, local) {
+				return true
+			}
+		}
+	}
+	return false
 }
